@@ -271,7 +271,7 @@ PROPS["C11"] = {
     "outside": "LEVELS > 2, MarketEnv records (C14), more than one step in a row (induction over k is the stated argument)",
     "explanation": "One step from an environment with k arbitrary prior records: every series (touch prices, side volumes, per-level volumes and order counts for each level, per-step traded volume) has k+1 entries, the earlier entries are unchanged, the last entry equals the value read from the live book's own getters after the step (bid series from bid getters, ask from ask, on asymmetric books), and the per-step traded volume equals the sum of the trades stamped within the step.",
     "stubs": [STUB_LOOP, "std BTreeMap -> verif_map (cfg(kani) only)"],
-    "harnesses": [STEP_HARNESSES[3], STEP_HARNESSES[4], STEP_HARNESSES[5], STEP_HARNESSES[0], STEP_HARNESSES[1]],
+    "harnesses": [STEP_HARNESSES[3], dict(STEP_HARNESSES[5], tiers=("quick", "thorough"), timeout=1500), dict(STEP_HARNESSES[4], tiers=("thorough",)), STEP_HARNESSES[0], STEP_HARNESSES[1], MLOOP],
 }
 
 PROPS["C15"] = {
@@ -403,8 +403,8 @@ PROPS["C14"] = {
     "explanation": "A Market<2> assembled from two independent arbitrary books: one market-level operation addressed to asset a leaves asset 1-a's complete observable snapshot and side indexes untouched and makes asset a equal to a stand-alone reference book taking the same operation; ids are (asset, per-asset sequence number); every all-asset query (incl. the re-implemented level_2_data) returns [f(book0), f(book1)]; set_time / toggles / reset reach every asset; Market::new gives each asset its own tick size and the shared clock and flag. MarketEnv<2>::step (loop harness): each asset's book receives exactly its own instructions, in the shuffled order, stamped start+i with i the position in the WHOLE batch; per-asset cache, records and per-step volumes.",
     "stubs": ["Market::process_event -> Market::verif_log_event in the market_env_step_loop_* harnesses only", "std BTreeMap -> verif_map (cfg(kani) only)"],
     "harnesses": [book(f"c14_market_{g}_asset{a}_off", f"market-level {g} addressed to asset {a}", covers=[c] if c else [], timeout=900,
-                       tiers=("quick", "thorough") if (g, a) in (("create_place", 1), ("event_new", 0), ("event_cancel", 1), ("modify", 0), ("create", 0)) else ("thorough",))
-                  for g, c in (("create", None), ("create_place", "cover.placed_on_addressed_asset"), ("place", None), ("cancel", None), ("modify", None), ("event_new", "cover.new_event_routed"),
+                       tiers=("quick", "thorough") if (g, a) in (("create_place", 1), ("event_new", 0), ("event_cancel", 1), ("modify", 0), ("event_modify", 1), ("create", 0)) else ("thorough",))
+                  for g, c in (("create", None), ("create_place", "cover.placed_on_addressed_asset"), ("place", None), ("cancel", None), ("modify", "cover.modify_requeued"), ("event_new", "cover.new_event_routed"),
                                ("event_cancel", "cover.cancel_event_routed"), ("event_modify", "cover.modify_event_routed")) for a in (0, 1)] + [
                   book("c14_market_admin", "set_time / toggles / reset_trade_vols reach both assets; Market::new per-asset ticks", covers=["cover.reset_reaches_asset_1"], timeout=900),
                   de("market_env_step_loop_b2", "MarketEnv<2>::step loop, 2 instructions on symbolic assets", covers=["cover.cross_asset_batch_reordered"], timeout=1500),
